@@ -19,6 +19,8 @@ TABLE = {
     'C05-m2': ([('demo_test.go', 'internal/c05m2')], GT + "-run TestC05M2 ./internal/c05m2"),
     'C06-m1': ([('header_object_roundtrip_test.go', 'uri')], GT + "-run TestHeaderObjectRoundTrip ./uri/"),
     'C06-m2': ([('demo_test.go', 'internal/mutdemo_c06')], GT + "-run TestCookieExplodeArray ./internal/mutdemo_c06/"),
+    'C08-m1': ([('c08_m1_demo_test.go', 'ogenregex')], GT + "-run TestC08M1 ./ogenregex/"),
+    'C08-m2': ([('c08_m2_demo_test.go', 'ogenregex')], GT + "-run TestC08M2 ./ogenregex/"),
     'C09-m1': ([('override_demo_test.go', 'internal/c09demo')], GT + "-run TestOperationLevelEmptySecurityOverride ./internal/c09demo/"),
     'C09-m2': ([('wide_demo_test.go', 'internal/c09demo')], GT + "-run TestManySchemesOnOneOperation ./internal/c09demo/"),
     'C10-m1': ([('c10_m1_demo_test.go', '.')], GT + "-run '^TestC10M1Deterministic$' ."),
@@ -29,6 +31,8 @@ TABLE = {
     'C12-m2': ([('router_c12m2_test.go', 'internal/integration')], GT + "-run TestC12M2 ./internal/integration/"),
     'C13-m1': ([('float32_roundtrip_test.go', 'conv')], GT + "-run TestFloat32ParamRoundTrip ./conv/"),
     'C13-m2': ([('unixmilli_str_roundtrip_test.go', 'json')], GT + "-run TestStringUnixMilliRoundTrip ./json/"),
+    'C14-m1': ([('c14_examples_order_test.go', 'cmd/ogen')], GT + "-run 'TestC14RegenGithubFixture|TestC14ExamplesOrderIsStable' ./cmd/ogen", 'patch.diff', 'verbatim'),
+    'C14-m2': ([('c14_oauth2_fixtures_test.go', 'cmd/ogen')], GT + "-run TestC14RegenOAuth2Fixtures ./cmd/ogen", 'patch.diff', 'verbatim'),
     'C15-m1': ([('c15_m1_demo_test.go', 'internal/integration')], GT + "-run TestC15M1HandBuiltRawPath ./internal/integration/"),
     'C15-m2': ([('demo/spec.json', 'internal/c15m2demo'), ('demo/demo_test.go', 'internal/c15m2demo')],
                "go run ./cmd/ogen --clean --target internal/c15m2demo/api --package api internal/c15m2demo/spec.json && " + GT + "-run TestC15M2TrailingData ./internal/c15m2demo/"),
@@ -77,7 +81,8 @@ def main(ids):
         dst = os.path.join(DST, mid)
         os.makedirs(os.path.join(dst, 'demo'), exist_ok=True)
         patch = open(os.path.join(src, patchname)).read()
-        so = source_only(patch)
+        verbatim = len(ent) > 3 and ent[3] == 'verbatim'
+        so = patch if verbatim else source_only(patch)
         open(os.path.join(dst, 'patch.diff'), 'w').write(so)
         readme = open(os.path.join(src, 'README.md')).read()
         shutil.copy(os.path.join(src, 'README.md'), os.path.join(dst, 'README.md'))
@@ -99,6 +104,9 @@ def main(ids):
             'demonstration': {'files': demo, 'run_in_worktree': cmd, 'expect': 'fails with the change, passes without'},
             'origin': 'written by a sub-agent that saw only the property text and a scratch worktree of /repo',
         })
+        if verbatim:
+            meta['apply_verbatim'] = True
+            meta['patch'] = 'patch.diff, applied as it is: the checked-in generated files are part of the change (or deliberately left stale) and nothing is regenerated'
         if patchname != 'patch.diff':
             meta['note'] = 'the sub-agent\'s patch was rebased by hand onto a later fix: commit of /repo that touched the same function; same change'
         json.dump(meta, open(meta_path, 'w'), indent=1, ensure_ascii=False)
